@@ -35,6 +35,7 @@ ConvBase(B, c) ==
     [] B = "bool"   -> (CASE c = "B1" -> "b:true" [] c = "B0" -> "b:false" [] c = "STRUE" -> "b:true"
                           \* numeric casts: a number is true iff it is not zero
                           [] c = "I7" -> "b:true" [] c = "I0" -> "b:false" [] c = "F1.5" -> "b:true" [] c = "F0" -> "b:false"
+                          [] c = "F0.5" -> "b:true"          \* not zero, although it truncates to zero
                           [] c = "Sfalse" -> "b:false" [] c = "E" -> "b:false" [] c = "Strue" -> "b:true"
                           [] c = "STrue" -> "b:true" [] c = "SFALSE" -> "b:false" [] c = "SFalse" -> "b:false"
                           [] OTHER -> "ERR")
@@ -57,7 +58,7 @@ OkCodes(T) ==
       ok == CASE B = "String" -> {"E", "S0", "Sx", "S12", "Spad"}
               [] B = "f64"  -> {"I7", "F1.5", "F2", "S12", "S1.5", "Sx"}
               [] B = "i64"  -> {"I7", "Ibig", "F2", "F1.5", "S12", "Sx"}     \* Ibig = 2^53 + 1: an integer cell keeps its value
-              [] B = "bool" -> {"I7", "I0", "F1.5", "F0", "B1", "B0", "STRUE", "Sfalse", "Strue", "STrue", "SFALSE", "SFalse", "E", "Sx"}
+              [] B = "bool" -> {"I7", "I0", "F1.5", "F0", "F0.5", "B1", "B0", "STRUE", "Sfalse", "Strue", "STrue", "SFALSE", "SFalse", "E", "Sx"}
               [] B = "Data" -> {"E", "S0", "I7", "F1.5", "Sx", "B1"}
               [] B = "I64OrNone" -> {"E", "I7", "Ibig", "F2", "F1.5", "S12", "S1.5", "Sx", "B1", "B0", "STRUE"}
               [] B = "F64OrNone" -> {"E", "I7", "F2", "F1.5", "S12", "S1.5", "Sx", "B1", "B0", "STRUE"}
